@@ -39,6 +39,7 @@ VARIABLES
     g,          \* generation (instance) the operation creates, NoGen if none
     old,        \* instance being restarted / stopped
     k,          \* loop index (server being listened / stopped; instance index in stopall)
+    ph,         \* 0: the next server's Stop() has not been called, 1: it has been called and has not returned
     inst,       \* [gen -> [lin, n, restart (BOOLEAN), parent, state]]
     cb,         \* [gen -> [kind -> times the callbacks of that kind have run]]
     srv,        \* [gen -> [1..2 -> [bound, spawned, begun, stopreq, ended, spended]]]
@@ -48,9 +49,9 @@ VARIABLES
     held,       \* stopall: lineages whose wg is held (+1) until casket.Stop returns
     att         \* [gen -> [calls, failed]] restart attempts made on an instance
 
-vars == <<hist, pc, op, g, old, k, inst, cb, srv, wg, instances, waiter, held, att>>
+vars == <<hist, pc, op, g, old, k, ph, inst, cb, srv, wg, instances, waiter, held, att>>
 
-NoSrv == [bound |-> FALSE, spawned |-> FALSE, begun |-> FALSE, stopreq |-> FALSE, ended |-> FALSE, spended |-> FALSE]
+NoSrv == [bound |-> FALSE, spawned |-> FALSE, begun |-> FALSE, stopreq |-> FALSE, stopdone |-> FALSE, ended |-> FALSE, spended |-> FALSE]
 NoInst == [lin |-> 0, n |-> 0, restart |-> FALSE, parent |-> NoGen, state |-> "unused"]
 NoOp == [t |-> "none", lin |-> 1, n |-> 1, f |-> "none"]
 
@@ -58,7 +59,7 @@ Gens == 1..MaxGen
 Lins == 1..MaxStarts
 
 Init ==
-    /\ hist = <<>> /\ pc = "idle" /\ op = NoOp /\ g = NoGen /\ old = NoGen /\ k = 0
+    /\ hist = <<>> /\ pc = "idle" /\ op = NoOp /\ g = NoGen /\ old = NoGen /\ k = 0 /\ ph = 0
     /\ inst = [x \in Gens |-> NoInst]
     /\ cb = [x \in Gens |-> [kd \in Kinds |-> 0]]
     /\ srv = [x \in Gens |-> [j \in 1..2 |-> NoSrv]]
@@ -92,7 +93,7 @@ BeginStart(o) ==
     /\ inst' = [inst EXCEPT ![NextGen] = [lin |-> o.lin, n |-> o.n, restart |-> FALSE, parent |-> NoGen, state |-> "starting"]]
     /\ instances' = Append(instances, NextGen)       \* startWithListenerFds: saved in the list first
     /\ pc' = "dirs"
-    /\ UNCHANGED <<k, cb, srv, wg, waiter, held, att>>
+    /\ UNCHANGED <<k, ph, cb, srv, wg, waiter, held, att>>
 
 BeginRestart(o) ==
     /\ o.t = "restart"
@@ -100,17 +101,17 @@ BeginRestart(o) ==
     /\ wg' = [wg EXCEPT ![o.lin] = @ + 1]            \* i.wg.Add(1); defer i.wg.Done()
     /\ att' = [att EXCEPT ![LiveOf(o.lin)].calls = @ + 1]
     /\ pc' = "restartcb"
-    /\ UNCHANGED <<k, inst, cb, srv, instances, waiter, held>>
+    /\ UNCHANGED <<k, ph, inst, cb, srv, instances, waiter, held>>
 
 BeginStop(o) ==
     /\ o.t = "stop"
-    /\ old' = LiveOf(o.lin) /\ g' = NoGen /\ k' = 1
+    /\ old' = LiveOf(o.lin) /\ g' = NoGen /\ k' = 1 /\ ph' = 0
     /\ pc' = "stop"
     /\ UNCHANGED <<inst, cb, srv, wg, instances, waiter, held, att>>
 
 BeginStopAll(o) ==
     /\ o.t = "stopall"
-    /\ g' = NoGen /\ old' = NoGen /\ k' = 0
+    /\ g' = NoGen /\ old' = NoGen /\ k' = 0 /\ ph' = 0
     /\ pc' = "stopall"
     /\ UNCHANGED <<inst, cb, srv, wg, instances, waiter, held, att>>
 
@@ -130,7 +131,7 @@ RestartCb ==
          ELSE /\ inst' = [inst EXCEPT ![g] = [lin |-> op.lin, n |-> op.n, restart |-> TRUE, parent |-> old, state |-> "starting"]]
               /\ instances' = Append(instances, g)
               /\ pc' = "dirs"
-    /\ UNCHANGED <<hist, op, g, old, k, srv, wg, waiter, held, att>>
+    /\ UNCHANGED <<hist, op, g, old, k, ph, srv, wg, waiter, held, att>>
 
 \* the new instance is dropped from the list again (deferred func of startWithListenerFds)
 Discard == /\ inst' = [inst EXCEPT ![g].state = "discarded"]
@@ -143,14 +144,14 @@ Directives ==
     /\ IF op.f = "setup"
          THEN Discard /\ pc' = FailTo
          ELSE pc' = (IF inst[g].restart THEN "startup" ELSE "first") /\ UNCHANGED <<inst, instances>>
-    /\ UNCHANGED <<hist, op, g, old, k, cb, srv, wg, waiter, held, att>>
+    /\ UNCHANGED <<hist, op, g, old, k, ph, cb, srv, wg, waiter, held, att>>
 
 \* OnFirstStartup: only when this is not a restart
 FirstStartupCb ==
     /\ pc = "first"
     /\ Bump(g, "first")
     /\ pc' = "startup"
-    /\ UNCHANGED <<hist, op, g, old, k, inst, srv, wg, instances, waiter, held, att>>
+    /\ UNCHANGED <<hist, op, g, old, k, ph, inst, srv, wg, instances, waiter, held, att>>
 
 StartupCb ==
     /\ pc = "startup"
@@ -158,7 +159,7 @@ StartupCb ==
     /\ IF op.f = "startupcb"
          THEN Discard /\ pc' = FailTo /\ UNCHANGED k
          ELSE pc' = "listen" /\ k' = 1 /\ UNCHANGED <<inst, instances>>
-    /\ UNCHANGED <<hist, op, g, old, srv, wg, waiter, held, att>>
+    /\ UNCHANGED <<hist, op, g, old, ph, srv, wg, waiter, held, att>>
 
 \* server j of a restarted instance re-uses the old instance's socket for the same address
 Inherits(j) == inst[g].restart /\ j <= inst[old].n
@@ -172,38 +173,55 @@ ListenStep ==
     /\ IF ~Inherits(k) /\ op.f = "listen"
          THEN \* a fresh Listen fails: the instance is dropped
               /\ Discard /\ pc' = FailTo
-              /\ UNCHANGED <<srv, wg, k>>
+              /\ UNCHANGED <<srv, wg, k, ph>>
          ELSE IF k < inst[g].n
               THEN /\ srv' = [srv EXCEPT ![g][k].bound = TRUE]
                    /\ k' = k + 1
-                   /\ UNCHANGED <<pc, inst, instances, wg>>
+                   /\ UNCHANGED <<pc, inst, instances, wg, ph>>
               ELSE /\ srv' = [srv EXCEPT ![g] = SpawnAll([@ EXCEPT ![k].bound = TRUE])]
                    /\ wg' = [wg EXCEPT ![inst[g].lin] = @ + 2 * inst[g].n]
                    /\ inst' = [inst EXCEPT ![g].state = "live"]
                    /\ pc' = (IF inst[g].restart THEN "oldstop" ELSE "retok")
-                   /\ k' = 1
+                   /\ k' = 1 /\ ph' = 0
                    /\ UNCHANGED instances
     /\ UNCHANGED <<hist, op, g, old, cb, waiter, held, att>>
 
 \* ---- controller: the second half of a successful Restart ------------------
-\* i.Stop(): every graceful server of the old instance is stopped, then the
-\* instance is spliced out of the list
-StopOldServer ==
-    /\ pc = "oldstop"
-    /\ srv' = [srv EXCEPT ![old][k].stopreq = TRUE]
-    /\ IF k < inst[old].n
-         THEN k' = k + 1 /\ UNCHANGED <<pc, inst, instances>>
-         ELSE /\ inst' = [inst EXCEPT ![old].state = "stopped"]
-              /\ instances' = Remove(instances, old)
-              /\ pc' = "oldshutdown" /\ UNCHANGED k
-    /\ UNCHANGED <<hist, op, g, old, cb, wg, waiter, held, att>>
+\* Instance.Stop of instance x, shared by Restart (old instance), the stop operation and
+\* casket.Stop: the instance holds its own WaitGroup while it stops its servers (Add(1) before
+\* the first, Done() when the last has returned and the instance is spliced out of the list);
+\* each graceful server's Stop() is called (StopCall) and returns after it has drained (StopRet).
+StopCall(x) ==
+    /\ ph = 0
+    /\ srv' = [srv EXCEPT ![x][k].stopreq = TRUE]
+    /\ wg' = IF k = 1 THEN [wg EXCEPT ![inst[x].lin] = @ + 1] ELSE wg
+    /\ ph' = 1
+\* after is the controller step that follows Instance.Stop in this context
+StopRet(x, after) ==
+    /\ ph = 1
+    /\ srv' = [srv EXCEPT ![x][k].stopdone = TRUE]
+    /\ ph' = 0
+    /\ IF k < inst[x].n
+         THEN k' = k + 1 /\ UNCHANGED <<pc, inst, instances, wg>>
+         ELSE /\ inst' = [inst EXCEPT ![x].state = "stopped"]
+              /\ instances' = Remove(instances, x)
+              /\ wg' = [wg EXCEPT ![inst[x].lin] = @ - 1]
+              /\ pc' = after
+              /\ k' = IF after = "stopall" THEN 0 ELSE k
+
+StopOldCall ==
+    /\ pc = "oldstop" /\ StopCall(old)
+    /\ UNCHANGED <<hist, op, g, old, k, pc, inst, instances, cb, waiter, held, att>>
+StopOldRet ==
+    /\ pc = "oldstop" /\ StopRet(old, "oldshutdown")
+    /\ UNCHANGED <<hist, op, g, old, cb, waiter, held, att>>
 
 \* OnShutdown callbacks of the old instance (not OnFinalShutdown)
 OldShutdownCb ==
     /\ pc = "oldshutdown"
     /\ Bump(old, "shutdown")
     /\ pc' = "retok"
-    /\ UNCHANGED <<hist, op, g, old, k, inst, srv, wg, instances, waiter, held, att>>
+    /\ UNCHANGED <<hist, op, g, old, k, ph, inst, srv, wg, instances, waiter, held, att>>
 
 \* failure of a Restart: OnRestartFailed callbacks of the old instance, nothing else
 RestartFailedCb ==
@@ -211,86 +229,86 @@ RestartFailedCb ==
     /\ Bump(old, "restartfailed")
     /\ att' = [att EXCEPT ![old].failed = @ + 1]
     /\ pc' = "reterr"
-    /\ UNCHANGED <<hist, op, g, old, k, inst, srv, wg, instances, waiter, held>>
+    /\ UNCHANGED <<hist, op, g, old, k, ph, inst, srv, wg, instances, waiter, held>>
 
 \* the call returns (deferred wg.Done of Restart)
 Return ==
     /\ pc \in {"retok", "reterr"}
     /\ wg' = IF op.t = "restart" THEN [wg EXCEPT ![op.lin] = @ - 1] ELSE wg
     /\ pc' = "idle"
-    /\ UNCHANGED <<hist, op, g, old, k, inst, cb, srv, instances, waiter, held, att>>
+    /\ UNCHANGED <<hist, op, g, old, k, ph, inst, cb, srv, instances, waiter, held, att>>
 
 \* ---- controller: Instance.Stop and casket.Stop ----------------------------
-StopServer ==
-    /\ pc = "stop"
-    /\ srv' = [srv EXCEPT ![old][k].stopreq = TRUE]
-    /\ IF k < inst[old].n
-         THEN k' = k + 1 /\ UNCHANGED <<pc, inst, instances>>
-         ELSE /\ inst' = [inst EXCEPT ![old].state = "stopped"]
-              /\ instances' = Remove(instances, old)
-              /\ pc' = "retok" /\ UNCHANGED k
-    /\ UNCHANGED <<hist, op, g, old, cb, wg, waiter, held, att>>
+StopOpCall ==
+    /\ pc = "stop" /\ StopCall(old)
+    /\ UNCHANGED <<hist, op, g, old, k, pc, inst, instances, cb, waiter, held, att>>
+StopOpRet ==
+    /\ pc = "stop" /\ StopRet(old, "retok")
+    /\ UNCHANGED <<hist, op, g, old, cb, waiter, held, att>>
 
 \* casket.Stop: take the first instance of the list, hold its wg (Add(1), Done deferred to the
-\* end of casket.Stop), stop its servers one by one, splice it out; repeat until the list is empty
-StopAllServer ==
-    /\ pc = "stopall" /\ instances # <<>>
-    /\ LET x == IF k = 0 THEN Head(instances) ELSE old
-           j == IF k = 0 THEN 1 ELSE k
-       IN  /\ old' = x
-           /\ IF k = 0 THEN /\ wg' = [wg EXCEPT ![inst[x].lin] = @ + 1]
-                            /\ held' = held \cup {x}
-                       ELSE UNCHANGED <<wg, held>>
-           /\ srv' = [srv EXCEPT ![x][j].stopreq = TRUE]
-           /\ IF j < inst[x].n
-                THEN k' = j + 1 /\ UNCHANGED <<inst, instances>>
-                ELSE /\ inst' = [inst EXCEPT ![x].state = "stopped"]
-                     /\ instances' = Remove(instances, x)
-                     /\ k' = 0
-    /\ UNCHANGED <<hist, op, g, pc, cb, waiter, att>>
+\* end of casket.Stop), run Instance.Stop on it; repeat until the list is empty
+StopAllPickCall ==
+    /\ pc = "stopall" /\ instances # <<>> /\ k = 0 /\ ph = 0
+    /\ LET x == Head(instances)
+       IN  /\ old' = x /\ k' = 1 /\ ph' = 1
+           /\ wg' = [wg EXCEPT ![inst[x].lin] = @ + 1]        \* Instance.Stop's own hold
+           \* (casket.Stop also holds every instance's wait group until it has stopped them all;
+           \*  that is more than the property asks for - Instance.Stop's hold already keeps Wait()
+           \*  from returning early - and is deliberately not modelled: "held" stays empty)
+           /\ UNCHANGED held
+           /\ srv' = [srv EXCEPT ![x][1].stopreq = TRUE]
+    /\ UNCHANGED <<hist, op, g, pc, inst, instances, cb, waiter, att>>
+StopAllCall ==
+    /\ pc = "stopall" /\ k > 1 /\ StopCall(old)
+    /\ UNCHANGED <<hist, op, g, old, k, pc, inst, instances, cb, waiter, held, att>>
+StopAllRet ==
+    /\ pc = "stopall" /\ k > 0 /\ StopRet(old, "stopall")
+    /\ UNCHANGED <<hist, op, g, old, cb, waiter, held, att>>
 
 \* casket.Stop returns: the deferred Done()s run (not observable from outside: a silent step)
 StopAllRelease ==
-    /\ pc = "stopall" /\ instances = <<>> /\ k = 0
+    /\ pc = "stopall" /\ instances = <<>> /\ k = 0 /\ ph = 0
     /\ wg' = [l \in Lins |-> wg[l] - Cardinality({x \in held : inst[x].lin = l})]
     /\ held' = {}
     /\ pc' = "retok"
-    /\ UNCHANGED <<hist, op, g, old, k, inst, cb, srv, instances, waiter, att>>
+    /\ UNCHANGED <<hist, op, g, old, k, ph, inst, cb, srv, instances, waiter, att>>
 
 \* ---- asynchronous: server goroutines and waiters ---------------------------
 ServeBegin(x, j) ==
     /\ srv[x][j].spawned /\ ~srv[x][j].begun
     /\ SetSrv(x, j, "begun", TRUE)
-    /\ UNCHANGED <<hist, pc, op, g, old, k, inst, cb, wg, instances, waiter, held, att>>
+    /\ UNCHANGED <<hist, pc, op, g, old, k, ph, inst, cb, wg, instances, waiter, held, att>>
 
 \* Serve returns only after Stop was requested; the goroutine then calls wg.Done()
 ServeEnd(x, j) ==
     /\ srv[x][j].begun /\ srv[x][j].stopreq /\ ~srv[x][j].ended
     /\ SetSrv(x, j, "ended", TRUE)
     /\ wg' = [wg EXCEPT ![inst[x].lin] = @ - 1]
-    /\ UNCHANGED <<hist, pc, op, g, old, k, inst, cb, instances, waiter, held, att>>
+    /\ UNCHANGED <<hist, pc, op, g, old, k, ph, inst, cb, instances, waiter, held, att>>
 
 \* ServePacket returns at once (no packet conn); its goroutine calls wg.Done()
 ServePacketEnd(x, j) ==
     /\ srv[x][j].spawned /\ ~srv[x][j].spended
     /\ SetSrv(x, j, "spended", TRUE)
     /\ wg' = [wg EXCEPT ![inst[x].lin] = @ - 1]
-    /\ UNCHANGED <<hist, pc, op, g, old, k, inst, cb, instances, waiter, held, att>>
+    /\ UNCHANGED <<hist, pc, op, g, old, k, ph, inst, cb, instances, waiter, held, att>>
 
 WaitCall(l) ==
     /\ waiter[l] = "none" /\ \E x \in Gens : inst[x].lin = l /\ inst[x].state \in {"live", "stopped"}
     /\ waiter' = [waiter EXCEPT ![l] = "waiting"]
-    /\ UNCHANGED <<hist, pc, op, g, old, k, inst, cb, srv, wg, instances, held, att>>
+    /\ UNCHANGED <<hist, pc, op, g, old, k, ph, inst, cb, srv, wg, instances, held, att>>
 
 WaitReturn(l) ==
     /\ waiter[l] = "waiting" /\ wg[l] = 0
     /\ waiter' = [waiter EXCEPT ![l] = "returned"]
-    /\ UNCHANGED <<hist, pc, op, g, old, k, inst, cb, srv, wg, instances, held, att>>
+    /\ UNCHANGED <<hist, pc, op, g, old, k, ph, inst, cb, srv, wg, instances, held, att>>
 
 Controller ==
     \/ \E o \in Ops : BeginOp(o)
-    \/ (/\ (RestartCb \/ Directives \/ FirstStartupCb \/ StartupCb \/ ListenStep \/ StopOldServer
-            \/ OldShutdownCb \/ RestartFailedCb \/ Return \/ StopServer \/ StopAllServer \/ StopAllRelease))
+    \/ (/\ (RestartCb \/ Directives \/ FirstStartupCb \/ StartupCb \/ ListenStep
+            \/ OldShutdownCb \/ RestartFailedCb \/ Return \/ StopOldCall \/ StopOldRet \/ StopOpCall \/ StopOpRet
+            \/ StopAllPickCall \/ StopAllCall \/ StopAllRet \/ StopAllRelease))
 
 AsyncStep ==
     /\ Async
@@ -325,7 +343,7 @@ ShutdownOnceAfterSuccess ==
         /\ cb[x]["shutdown"] <= 1
         /\ cb[x]["shutdown"] = 1 =>
               /\ inst[x].state = "stopped"
-              /\ \A j \in 1..inst[x].n : srv[x][j].stopreq
+              /\ \A j \in 1..inst[x].n : srv[x][j].stopreq /\ srv[x][j].stopdone
               /\ \E y \in Gens : inst[y].parent = x /\ inst[y].state \in {"live", "stopped"}
         /\ (pc = "idle" /\ \E y \in Gens : inst[y].parent = x /\ inst[y].state \in {"live", "stopped"})
               => cb[x]["shutdown"] = 1
@@ -348,7 +366,8 @@ FinalOnlyAtProcessShutdown == \A x \in Gens : cb[x]["final"] = 0
 \* waiting on an instance returns only after every server of it and of its successors stopped
 WaitOnlyWhenAllStopped ==
     \A l \in Lins : waiter[l] = "returned" =>
-        \A x \in Lineage(l) : \A j \in 1..2 : srv[x][j].spawned => (srv[x][j].ended /\ srv[x][j].spended)
+        \A x \in Lineage(l) : \A j \in 1..2 :
+            srv[x][j].spawned => (srv[x][j].ended /\ srv[x][j].spended /\ (srv[x][j].stopreq => srv[x][j].stopdone))
 
 \* the WaitGroup counter is exact: goroutines still running + operations holding it
 WgExact ==
@@ -357,6 +376,8 @@ WgExact ==
         + Cardinality({<<x, j>> \in Gens \X (1..2) : inst[x].lin = l /\ srv[x][j].spawned /\ ~srv[x][j].spended})
         + (IF op.t = "restart" /\ op.lin = l /\ pc # "idle" THEN 1 ELSE 0)
         + Cardinality({x \in held : inst[x].lin = l})
+        + (IF pc \in {"oldstop", "stop", "stopall"} /\ old # NoGen /\ inst[old].lin = l /\ inst[old].state = "live"
+              /\ (k > 1 \/ ph = 1) THEN 1 ELSE 0)
 
 \* at most one live instance per lineage, and the instance list holds exactly the live
 \* instances plus the one being started
